@@ -60,7 +60,7 @@ class Stats:
         if r.known:
             self.known[r.known] = self.known.get(r.known, 0) + 1
         if r.inconclusive:
-            self.inconclusive.append(r.failure["message"][:300])
+            self.inconclusive.append(r.failure["message"][-900:])
 
     def merge(self, o):
         self.cases += o.cases
